@@ -48,6 +48,15 @@ type c18Order struct {
 	Items   []c18Item `json:"items" xml:"items"`
 }
 
+// element names that HTML treats as void / auto-closing: an XML decoder must not
+type c18Voids struct {
+	XMLName xml.Name `xml:"doc" json:"-"`
+	Link    string   `xml:"link" json:"link"`
+	Meta    string   `xml:"meta" json:"meta"`
+	Input   string   `xml:"input" json:"input"`
+	After   string   `xml:"after" json:"after"`
+}
+
 type c18Rule struct {
 	XMLName xml.Name `xml:"r" json:"-" query:"-" form:"-"`
 	Age     int      `query:"age" form:"age" json:"age" xml:"age" validate:"min:1|max:99"`
@@ -257,6 +266,49 @@ func c18Run(c c18Case, st *fw.Stats) []fw.Viol {
 				add("explicit:panic", fmt.Sprintf("Context.%s panicked: %v", eb, pv))
 			} else if err != nil || obj.Name != want {
 				add("explicit:source", fmt.Sprintf("Context.%s bound Name=%q err=%v, expected %q", eb, obj.Name, err, want))
+			}
+		}
+		if c.Format == "xml" {
+			// fields named like HTML void elements round-trip like any other
+			for _, vals := range [][4]string{{"a", "b", "c", "d"}, {"", "x", "", "y"}, {"l<i>nk", "&amp;", "é", "z"}} {
+				st.Evals++
+				want := c18Voids{Link: vals[0], Meta: vals[1], Input: vals[2], After: vals[3]}
+				var got c18Voids
+				var err error
+				if pv := try(func() { err = binding.Auto(c18Request("POST", "xml", nil, want), &got) }); pv != nil {
+					add("roundtrip:panic", fmt.Sprintf("xml round trip of %+v panicked: %v", want, pv))
+					continue
+				}
+				got.XMLName = xml.Name{}
+				if err != nil || got != (c18Voids{Link: vals[0], Meta: vals[1], Input: vals[2], After: vals[3]}) {
+					add("roundtrip:xml", fmt.Sprintf("xml: encoding %+v and binding it back gives %+v (err=%v)", want, got, err))
+				}
+			}
+			// single-fault mutations of a well-formed document: whatever a strict XML parser refuses must give an error
+			doc := `<v><id>1</id><name a="b">ab&amp;c</name><on>true</on></v>`
+			muts := []string{}
+			for i := 0; i < len(doc); i++ {
+				muts = append(muts, doc[:i]+doc[i+1:]) // one character deleted
+			}
+			muts = append(muts, strings.Replace(doc, "</id>", "</name>", 1), strings.Replace(doc, "</name>", "", 1), strings.Replace(doc, `a="b"`, `a=b`, 1),
+				strings.Replace(doc, `a="b"`, `a`, 1), strings.Replace(doc, "&amp;", "&nbsp;", 1), strings.Replace(doc, "&amp;", "&", 1), strings.Replace(doc, "</v>", "", 1),
+				strings.Replace(doc, "<on>", "<on><br>", 1), doc+"<", "<v><id>1</v>", "<v><p>x<p>y</v>")
+			for _, mdoc := range muts {
+				st.Evals++
+				var strict c18Val
+				if xml.Unmarshal([]byte(mdoc), &strict) == nil {
+					continue
+				}
+				st.Nontrivial++
+				req := httptest.NewRequest("POST", "/x", strings.NewReader(mdoc))
+				req.Header.Set("Content-Type", "application/xml")
+				var got c18Val
+				var err error
+				if pv := try(func() { err = binding.Auto(req, &got) }); pv != nil {
+					add("malformed:panic", fmt.Sprintf("xml body %q: Auto panicked: %v", mdoc, pv))
+				} else if err == nil {
+					add("malformed:xml-accepted", fmt.Sprintf("malformed XML %q was bound without error: %+v", mdoc, got))
+				}
 			}
 		}
 		ints := []int{0, 1, -7, 1 << 31}
